@@ -16,6 +16,7 @@ func init() {
 		Explain: "Decides the structural premises of at-most-once user-event delivery for every delivery history: the application send in handleUserEvent is edge-dominated by the cut-off test, the retention-window test and 'no equal event in the slot'; it is unreachable from the duplicate-found edge; the mark (append to the slot) precedes it inside the eventLock write section; accepted times lie in [clock-len, clock-1] with the slot index LTime mod the same len (so retained marks are never overwritten by another retained time); every exit without delivery is behind one of those guards (so a first-seen in-window event at or above the cut-off is delivered); the cut-off is only raised. The uint64 arithmetic near 2^64 is not decided (see C19).",
 		Run: runC05,
 		Mutants: []Mutant{
+			{Name: "stale-duplicate-search", File: "serf/serf.go", Func: "func (s *Serf) handleUserEvent(", Old: "\t// Add to recent events\n", New: "\t// Add to recent events\n\ts.eventLock.Unlock()\n\ts.eventLock.Lock()\n", Expect: "R3|(*Serf).handleUserEvent:mark:search-in-same-section"},
 			{Name: "window-double", File: "serf/serf.go", Func: "func (s *Serf) handleUserEvent(", Old: "eventMsg.LTime < curTime-LamportTime(len(s.eventBuffer))", New: "eventMsg.LTime < curTime-2*LamportTime(len(s.eventBuffer))", Expect: "W"},
 			{Name: "dup-check-skipped", File: "serf/serf.go", Func: "func (s *Serf) handleUserEvent(", Old: "if previous.Equals(&userEvent) {", New: "if previous.Equals(&userEvent) && len(previous.Payload) > 0 {", Expect: "R2"},
 			{Name: "send-before-mark", File: "serf/serf.go", Func: "func (s *Serf) handleUserEvent(", Old: "\t// Add to recent events\n\tseen.Events = append(seen.Events, userEvent)\n", New: "\tif s.config.EventCh != nil {\n\t\ts.config.EventCh <- UserEvent{LTime: eventMsg.LTime, Name: eventMsg.Name}\n\t}\n\tseen.Events = append(seen.Events, userEvent)\n", Expect: "R3"},
@@ -31,6 +32,7 @@ func init() {
 		Explain: "Decides C08 structurally for every query: in handleQuery the application send and the ack are edge-dominated by shouldProcessQuery(filters)==true (the ack also by the ack flag), both come after the dedupe mark, and every result past the mark is !NoBroadcast() regardless of filters; shouldProcessQuery returns true only by loop exhaustion and each filter arm continues only on decode-success ∧ (name contained | regexp matched with nil error) with the tag value tags[filt.Tag] (missing ⇒ \"\"), every other arm incl. default returning false; the internal-query stage never forwards a *Query whose name has the internal prefix; Create wires the pipeline snapshotter → internal-query stage → coalescers. Regexp semantics are not decided; the empty-filter crash is C09's.",
 		Run: runC08,
 		Mutants: []Mutant{
+			{Name: "rename-locals", Equivalent: true, Regexp: true, File: "serf/query.go", Func: "func (s *Serf) shouldProcessQuery(", Old: `\b(filt|nodes|matched|tag)\b`, New: "${1}Renamed"},
 			{Name: "deliver-before-filter", File: "serf/serf.go", Func: "func (s *Serf) handleQuery(", Old: "\t// Filter the query\n", New: "\tif s.config.EventCh != nil && query.Name == \"x\" {\n\t\ts.config.EventCh <- &Query{LTime: query.LTime, Name: query.Name}\n\t}\n", Expect: "R1"},
 			{Name: "ack-without-flag", File: "serf/serf.go", Func: "func (s *Serf) handleQuery(", Old: "if query.Ack() {", New: "if query.Ack() || query.RelayFactor > 0 {", Expect: "R1"},
 			{Name: "filtered-no-rebroadcast", File: "serf/serf.go", Func: "func (s *Serf) handleQuery(", Old: "\t\t// since it is the first time we've seen this.\n\t\treturn rebroadcast", New: "\t\t// since it is the first time we've seen this.\n\t\treturn false", Expect: "R1"},
@@ -47,6 +49,7 @@ func init() {
 		Explain: "Decides C14's structural clauses: Create sets the event/query cut-offs to the matching snapshot clock + 1 and the handlers drop LTime < cut-off (the accepted (op,offset) pairs drop every t <= last); every send of a UserEvent or *Query on the application channel anywhere in the module is in handleUserEvent/handleQuery and edge-dominated by LTime >= cut-off (gossip, state sync and join replay all funnel there); cut-offs are only raised; the snapshotter records the time of every passing user event/query newer than the last recorded one and sits upstream of the application. Not covered: the <=500 ms unflushed tail at a crash.",
 		Run: runC14,
 		Mutants: []Mutant{
+			{Name: "clock-field-after-append", File: "serf/snapshot.go", Func: "func (s *Snapshotter) processQuery(", Old: "\ts.lastQueryClock = q.LTime\n", New: "", Old2: "\ts.tryAppend(fmt.Sprintf(\"query-clock: %d\\n\", q.LTime))\n", New2: "\ts.tryAppend(fmt.Sprintf(\"query-clock: %d\\n\", q.LTime))\n\ts.lastQueryClock = q.LTime\n", Expect: "R5"},
 			{Name: "cutoff-no-plus-one", File: "serf/serf.go", Func: "func Create(", Old: "serf.eventMinTime = oldEventClock + 1", New: "serf.eventMinTime = oldEventClock", Expect: "R1"},
 			{Name: "cutoff-swapped-clocks", File: "serf/serf.go", Func: "func Create(", Old: "serf.queryMinTime = oldQueryClock + 1", New: "serf.queryMinTime = oldClock + 1", Expect: "R1"},
 			{Name: "cutoff-unconditional-assign", File: "serf/delegate.go", Func: "func (d *delegate) MergeRemoteState(", Old: "\t\tif pp.EventLTime > d.serf.eventMinTime {\n\t\t\td.serf.eventMinTime = pp.EventLTime\n\t\t}\n", New: "\t\td.serf.eventMinTime = pp.EventLTime\n", Expect: "R3"},
@@ -161,6 +164,12 @@ func deliveryRules(c *an.Ctx, h *msgHandler, locks *an.Locks, lock string) {
 	}
 	for _, m := range an.FindInstrs(fn, mark) {
 		c.Add(locks.Held(m).HasW(lock), "R3", hn+":mark:locked", m, "the mark is written inside the "+lock+" write section", "must-held lockset")
+		// check-then-act: the duplicate search that lets this mark happen runs in the mark's own
+		// critical section (two deliveries of one message racing through a stale search would both mark and deliver)
+		for _, e := range dupEdges {
+			test := e.From.Instrs[len(e.From.Instrs)-1]
+			c.Add(locks.Held(test).HasW(lock) && !releaseBetween(fn, test, m, lock), "R3", hn+":mark:search-in-same-section", m, "the duplicate search and the append of the entry happen in one "+lock+" write section", "must-held lockset + no release between search and append")
+		}
 		// mark itself not reachable from duplicate edge
 		for _, e := range dupEdges {
 			to := e.To()
@@ -494,6 +503,21 @@ func wiringRule(c *an.Ctx, rule string) {
 // ---------------------------------------------------------------------------
 
 func runC14(c *an.Ctx) {
+	// R5: the recorded clock must survive a compaction triggered by its own append (shared with C10.R3):
+	// otherwise a restart restores an older clock and the newest event/query is accepted again
+	c.Rule("R5 (shared with C10) each clock recorder updates its in-memory field before it appends the line, and compaction serialises that field")
+	sub10 := an.NewCtx(c.P, "C10", c.Tier)
+	runC10(sub10)
+	n5 := 0
+	for _, o := range sub10.Obs {
+		if (o.Rule == "R3" && strings.Contains(o.Key, "clock")) || (o.Rule == "R2" && strings.Contains(o.Key, "compact:covers:") && strings.Contains(o.Key, "Clock")) {
+			o.Key = "R5|C10:" + o.Key
+			o.Rule = "R5"
+			c.Obs = append(c.Obs, o)
+			n5++
+		}
+	}
+	c.Floor("R5", "clock state-before-append and compaction-coverage obligations", n5, 4)
 	c.Rule("R1 Create: eventMinTime = snap.LastEventClock()+c, queryMinTime = snap.LastQueryClock()+c with (drop operator, c) ∈ {(<,1), (<=,0)}")
 	c.Rule("R2 every send of a UserEvent/*Query on config.EventCh module-wide is in handleUserEvent/handleQuery and dominated by LTime >= min-time")
 	c.Rule("R3 min-times are only raised (eventMinTime: guarded new > old; queryMinTime: single writer Create)")
